@@ -30,6 +30,14 @@ func (g *G) MsgStress(allowPlural bool) []Cmd {
 		{expr: &Expr{Op: "*", Args: []*Expr{{Op: "+", Args: []*Expr{{Op: "int", I: 1}, {Op: "int", I: 2}}}, {Op: "int", I: 3}}}},
 		{expr: &Expr{Op: "+", Args: []*Expr{{Op: "int", I: 1}, {Op: "*", Args: []*Expr{{Op: "int", I: 2}, {Op: "int", I: 3}}}}}},
 		{expr: str("lit")},
+		// data references that do not end in a key (no name of their own: XXX as a placeholder, NUM as a plural value)
+		{let: Cmd{K: "let", Var: "nums", Expr: &Expr{Op: "list", Args: []*Expr{{Op: "int", I: 1}, {Op: "int", I: 3}}}}, expr: &Expr{Op: "ref", Name: "nums", Access: []Access{{Kind: "index", Index: 0}}}},
+		{let: Cmd{K: "let", Var: "nums", Expr: &Expr{Op: "list", Args: []*Expr{{Op: "int", I: 1}, {Op: "int", I: 3}}}}, expr: &Expr{Op: "ref", Name: "nums", Access: []Access{{Kind: "expr", Expr: &Expr{Op: "int", I: 1}}}}},
+		{let: Cmd{K: "let", Var: "nm", Expr: &Expr{Op: "map", Keys: []string{"n"}, Args: []*Expr{{Op: "int", I: 2}}}}, expr: &Expr{Op: "ref", Name: "nm", Access: []Access{{Kind: "expr", Expr: str("n")}}}},
+		// the same expression and directive names, other arguments: distinct placeholders
+		{let: Cmd{K: "let", Var: "x", Expr: str("[x]")}, expr: &Expr{Op: "ref", Name: "x"}, dirs: []Directive{{Name: "truncate", Args: []*Expr{{Op: "int", I: 2}}}}},
+		{let: Cmd{K: "let", Var: "x", Expr: str("[x]")}, expr: &Expr{Op: "ref", Name: "x"}, dirs: []Directive{{Name: "truncate", Args: []*Expr{{Op: "int", I: 3}}}}},
+		{let: Cmd{K: "let", Var: "x", Expr: str("[x]")}, expr: &Expr{Op: "ref", Name: "x"}, dirs: []Directive{{Name: "truncate", Args: []*Expr{{Op: "int", I: 3}, {Op: "bool", B: false}}}}},
 	}
 	// identifiers from a small grammar, so that base names collide with each other and with the
 	// suffixed names of other collision groups (x / x1 / x_1 / x_1_1 ...), and so that every kind of
@@ -102,9 +110,16 @@ func (g *G) MsgStress(allowPlural bool) []Cmd {
 	if allowPlural && g.Chance(30) {
 		lets = append(lets, Cmd{K: "let", Var: "num", Expr: &Expr{Op: "int", I: int64(g.Intn(4))}})
 		pl := Cmd{K: "plural", Expr: &Expr{Op: "ref", Name: "num"}}
-		if g.Chance(25) {
+		switch {
+		case g.Chance(25):
 			lets[len(lets)-1] = Cmd{K: "let", Var: "cnt", Expr: &Expr{Op: "map", Keys: []string{"num"}, Args: []*Expr{{Op: "int", I: int64(g.Intn(4))}}}}
 			pl.Expr = &Expr{Op: "ref", Name: "cnt", Access: []Access{{Kind: "key", Key: "num"}}}
+		case g.Chance(30):
+			// a plural value without a name of its own - the same reference may also be printed in the cases
+			lets = lets[:len(lets)-1]
+			p := pool[len(pool)-6+g.Intn(3)]
+			use(p)
+			pl.Expr = p.expr
 		}
 		seen := map[int]bool{}
 		for i, n := 0, 1+g.Intn(3); i < n; i++ {
